@@ -112,6 +112,11 @@ func StartKeygen(group curve.Curve, receiver bool, selfID, otherID party.ID, sec
 			Group:            group,
 		}
 
+		if secretShare != nil && public != nil {
+			// refreshing existing shares is a protocol of its own: no shared tag with key generation
+			info.ProtocolID = "doerner/refresh"
+		}
+
 		helper, err := round.NewSession(info, sessionID, nil)
 		if err != nil {
 			return nil, fmt.Errorf("keygen.StartKeygen: %w", err)
